@@ -54,6 +54,13 @@ def model_circuits():
     yield "two-instances", build({"a": ("input", []), "u0.clk": ("bb_input", ["a"]), "u0.d": ("bb_input", ["a"]), "u0.q": ("bb_output", []), "u0.qn": ("bb_output", []), "w": ("buf", ["u0.q"]),
                                   "u1.clk": ("bb_input", ["a"]), "u1.d": ("bb_input", ["w"]), "u1.q": ("bb_output", []), "u1.qn": ("bb_output", []), "o": ("buf", ["u1.q"]), "p": ("buf", ["u0.qn"])},
                                  outputs=["o", "p"], name="bb2", blackboxes={"u0": ff, "u1": ff}), [ff]
+    # instance names one of which is the beginning of the others (a register r1, r10, r11): every instance keeps its own pins
+    spec_ = {"a": ("input", []), "ck": ("input", [])}
+    prev_ = "a"
+    for inst_ in ("r1", "r10", "r11", "r1_b"):
+        spec_.update({f"{inst_}.clk": ("bb_input", ["ck"]), f"{inst_}.d": ("bb_input", [prev_]), f"{inst_}.q": ("bb_output", []), f"{inst_}.qn": ("bb_output", []), f"w_{inst_}": ("buf", [f"{inst_}.q"])})
+        prev_ = f"w_{inst_}"
+    yield "instance-names-that-begin-with-another-instance-name", build(spec_, outputs=[prev_, "w_r1"], name="regs", blackboxes={i_: ff for i_ in ("r1", "r10", "r11", "r1_b")}), [ff]
     # one net on two input pins of one instance (set and reset tied together)
     ffrs = RefBlackBox("ffrs", ["d", "r", "s"], ["q"])
     yield "one-net-on-two-input-pins", build({"a": ("input", []), "rst": ("input", []), "u0.d": ("bb_input", ["a"]), "u0.r": ("bb_input", ["rst"]), "u0.s": ("bb_input", ["rst"]), "u0.q": ("bb_output", []),
